@@ -595,6 +595,10 @@ def check(ctx, rep):
                 key=f"R04k|{f_.qualname}|{norm(c_.func)}")
     if not raw_sites:
         rep.ok("R04k", f"no writer reaches below the response file object [{n_writers} writer functions]", "pygopherd/handlers", "", key="R04k|none")
+    rep.rule("R04m", "= R05m: a WAP request is recognised and then served with the prefix taken off once - the document sent is the one the "
+             "target names, GET and HEAD alike", floor=1)
+    from .c05 import wap_request_evaluation
+    wap_request_evaluation(ctx, rep, "R04m")
     rep.rule("R04l", "a file is served as a mailbox menu only when its first line is an mbox envelope line (sender, weekday, month, day, time, "
              "year): the mailbox handler's test evaluated on 16 first lines - ordinary text that begins with `From ` stays a document", floor=1)
     mailbox_sniff_obligations(ctx, rep, "R04l")
